@@ -6,6 +6,7 @@ package mon
 import (
 	_ "verif/harness/mon/c01"
 	_ "verif/harness/mon/c02"
+	_ "verif/harness/mon/c03"
 	_ "verif/harness/mon/c08"
 	_ "verif/harness/mon/c09"
 	_ "verif/harness/mon/c11"
